@@ -366,6 +366,7 @@ func (this *partition) proposeAndWaitForCommit(ctx context.Context, proposal *pb
 		return nil, err
 	}
 
+	verifGate("propose.before", 0)
 	if err := this.raft.Propose(ctx, proposalData); err != nil {
 		return nil, err
 	}
